@@ -45,6 +45,8 @@ class ConcatWorld:
         self.removed: set = set()      # (handle, uid)
         self.mixed = False
         self.label_dk = {}
+        self.copy_pairs = set()
+        self.last_group = None
         self.removed_labels = set()
         self._gc_seen = 0
 
@@ -102,9 +104,11 @@ class ConcatWorld:
             return None
         cands = [(g, hu) for g, hu in self.holes() if pred is None or pred(self.groups[g]["holes"][hu])]
         if (t["g"], t["hole"]) in cands:
+            self.last_group = t["g"]
             return t["g"], t["hole"]
         if not cands:
             return None
+        self.last_group = cands[t["fb"] % len(cands)][0]
         return cands[t["fb"] % len(cands)]
 
     # ------------------------------------------------------------------ observation
@@ -143,7 +147,11 @@ class ConcatWorld:
             for huid, hmodel in grp["holes"].items():
                 if (guid, huid) in skip:
                     continue
-                self.check_hole(guid, huid, live_holes[huid], where)
+                try:
+                    self.check_hole(guid, huid, live_holes[huid], where)
+                except Violation as vio:
+                    vio.group = guid
+                    raise
             del live_holes
 
     def check_hole(self, guid, huid, hole, where):
@@ -224,7 +232,9 @@ class ConcatWorld:
                 errs = [e for e in errs if e[0] == "R12"]   # attribute records are written at close
             if errs:
                 rule, detail = errs[0]
-                raise Violation(self.v("C04"), "concat_" + rule, f"{where}: {detail} (+{len(errs) - 1} more)", {"rule": rule, "where": where.split(':')[0], "closed": closed})
+                vio = Violation(self.v("C04"), "concat_" + rule, f"{where}: {detail} (+{len(errs) - 1} more)", {"rule": rule, "where": where.split(':')[0], "closed": closed})
+                vio.group = f"{h}:{name}"
+                raise vio
             if closed and f"{h}:{name}" in self.groups:
                 # records are exactly the live holes, data and property groups; nothing of removed entities
                 recs = node["concat"]["attributes"] if isinstance(node["concat"]["attributes"], list) else []
@@ -253,9 +263,11 @@ class ConcatWorld:
                     ids = parts[2].split("|")
                     if f"{h}:{parts[1]}" in created_groups or any(i in touched for i in ids):
                         continue
-                    raise Violation(self.v("C04") if self.prop != "C09" else "C09", "rows_changed",
+                    vio = Violation(self.v("C04") if self.prop != "C09" else "C09", "rows_changed",
                                     f"{where}: rows {parts[3]} of {ids[0]} changed {sorted(subs)} although the operation targeted {sorted(touched)[:2]}",
                                     {"where": where.split(':')[0], "label_kind": "aux" if parts[3] in ("Surveys", "Trace", "Property Group IDs") else "data"})
+                    vio.group = f"{h}:{parts[1]}"
+                    raise vio
 
     # ------------------------------------------------------------------ gc bookkeeping
     def check_gc(self):
@@ -382,9 +394,11 @@ class ConcatScenario(BaseScenario):
     def _res_data(self, w, t, pred=None):
         cands = [(g, hu, n) for g, hu in w.holes() for n, d in w.groups[g]["holes"][hu]["data"].items() if pred is None or pred(n, d)]
         if (t["g"], t["hole"], t["name"]) in cands:
+            w.last_group = t["g"]
             return t["g"], t["hole"], t["name"]
         if not cands:
             return None
+        w.last_group = cands[t["fb"] % len(cands)][0]
         return cands[t["fb"] % len(cands)]
 
     @staticmethod
@@ -556,14 +570,24 @@ class ConcatScenario(BaseScenario):
         w.trace.append(f"{kind}:{outcome.split(':')[0]}")
         state = rawgeoh5.sha([[g, hu, sorted((n, d["values"]) for n, d in hm["data"].items())] for g, grp in sorted(w.groups.items()) for hu, hm in grp["holes"].items()])
         sim.record("op", op["id"], kind, outcome, sorted(set(warns)), state)
-        if before is not None and not w.suspect and kind not in ("close_reopen", "reopen_same"):
-            after = w.raw_digest()
-            for h in after:
-                w.raw_rules(after[h][0], h, f"{kind}:after op", closed=False)
-            w.judge_rows(before, after, w.touched if outcome == "ok" else set(), f"{kind}:{outcome}", w.created_groups)
-            w._cache = after
-        if not w.suspect and kind in self.MUT:
-            w.check_all(f"{kind}:after op")
+        try:
+            if before is not None and not w.suspect and kind not in ("close_reopen", "reopen_same"):
+                after = w.raw_digest()
+                for h in after:
+                    w.raw_rules(after[h][0], h, f"{kind}:after op", closed=False)
+                w.judge_rows(before, after, w.touched if outcome == "ok" else set(), f"{kind}:{outcome}", w.created_groups)
+                w._cache = after
+            if not w.suspect and kind in self.MUT:
+                w.check_all(f"{kind}:after op")
+        except Violation as vio:
+            if True:
+                # an edit on one side of a copy that shows on the other side is C12's "edits of the copy do not show through"
+                other = getattr(vio, "group", None)
+                mine = getattr(w, "last_group", None)
+                if self.prop == "C12" and other and mine and other != mine and frozenset((other, mine)) in w.copy_pairs:
+                    raise Violation("C12", "edit_shows_through", f"{kind} on a drillhole of {mine.split(':')[0]} changed the other side of the group copy: {vio.detail}",
+                                    {"op": kind, "cls": "DrillholeGroup", "field": vio.tag}) from None
+                raise
         if sim.gc_mode == "op" and random.Random(H(op["sub"], "gcop")).random() < sim.gc_density:
             sim.collect("op")
             w.check_gc()
@@ -1065,6 +1089,7 @@ class ConcatScenario(BaseScenario):
                 "pgs": {k: {"uid": v["uid"], "type": v["type"], "members": list(v["members"])} for k, v in live["pgs"].items()}}
         del live_holes, new
         w.groups[nguid] = model_new
+        w.copy_pairs.add(frozenset((g, nguid)))
         w.created_groups = {nguid}
         w.touched = {nguid}
         w.sim.probe("copy_group_cross" if cross else "copy_group_same")
